@@ -56,7 +56,8 @@ def gen_source(rng):
                                '\\065\\10', 'tab\\t', 'back\\\\',
                                'line1\\\nline2', 'raw\nnewline',
                                'cr\\\r\nlf', 'a--b', 'a[[b]]', '\\*3x',
-                               'two\nraw\nlines'])
+                               'two\nraw\nlines', 'a,\\z\n    b',
+                               'z\\z  \n\n  y', 'x\\\n\n  y'])
             if q in body.replace('\\' + q, ''):
                 body = body.replace(q, '')
             out.append(q + body + q)
@@ -143,6 +144,8 @@ def gen_valid_source(rng):
             out.append('-- line comment\rwith a lone cr %d' % k)
         elif r < 0.76:
             out.append('// slash comment\rcr %d' % k)
+        elif r < 0.79:
+            out.append('s_%d="skip,\\z\n     white %d"' % (k, k))
         elif r < 0.82:
             out.append('s_%d="continued\\\nline %d"' % (k, k))
         elif r < 0.9:
@@ -242,7 +245,8 @@ def generate(rng, prop, tier, index):
                                       else gen_source(rng)
                                       .decode('latin-1').encode(
                                           'ascii', 'replace')),
-                'routes': ['p8file', 'p8include', 'cli-listtokens']}
+                'routes': ['p8file', 'p8include', 'p8include2',
+                           'cli-listtokens']}
     if index % 25 == 7:
         sc['src'] = {'$corpus': index // 25}
     elif index % 10 == 3:
@@ -314,6 +318,8 @@ def execute_file(sc):
         w.put('a/code.p8', refcodec.encode_p8(cart))
         w.put('a/main.p8', refcodec.encode_p8(refcodec.make_cart(
             version=33, code=b'#include code.p8\n')))
+        w.put('a/main2.p8', refcodec.encode_p8(refcodec.make_cart(
+            version=33, code=b'#include code.p8\n#include code.p8\n')))
 
         def load(rel):
             try:
@@ -329,6 +335,28 @@ def execute_file(sc):
         for route in sc.get('routes', []):
             if route == 'p8file':
                 got = load('a/code.p8')
+            elif route == 'p8include2':
+                # the same cart included twice: the token list is the one of
+                # the (echoed) text twice over
+                got = load('a/main2.p8')
+                try:
+                    from pico8.lua import lua as _lua
+                    echoed = b''.join(_lua.Lua.from_lines(
+                        [src], version=33).to_lines())
+                    ref = lex([echoed + echoed], 'lua')
+                except Exception:
+                    continue
+                core.bump(res['faults'], 'CHUNK')
+                if got != ref:
+                    core.violation(
+                        res, 'C07', 'C07:chunk-dependent-tokens',
+                        'C07|chunk-dependent|tokens|via p8include twice',
+                        'source %r included twice from a cart: tokens differ '
+                        'from the (echoed) text lexed as one chunk: %s vs %s'
+                        % (src[:300], str(got)[:300], str(ref)[:300]))
+                    break
+                outcomes.append(route + ':same')
+                continue
             elif route == 'p8include':
                 got = load('a/main.p8')
                 # an included cart's code is re-serialised by the echo writer
